@@ -148,8 +148,25 @@ func c10Run(c *core.Ctx, long bool) {
 			in[0][t+2], in[1][t+2] = 0, c.R.Range(15, 40)         // a very hot day
 		}
 	}
+	// long Sacramento calls without any unreported loss (no side flow, channel loss, riparian ET or impervious areas) under
+	// frequent storms of every depth: then the only slack in "runoff + ET <= rainfall + initial storage" is the water still
+	// stored, and a few mm created per storm add up to more than the stores can hold
+	tight := false
+	if long && model == "Sacramento" && c.R.Bool(0.6) {
+		tight = true
+		for _, n := range []string{"side", "ssout", "sarva", "adimp"} {
+			ps[paramIndex(desc, n)][0] = 0
+		}
+		ps[paramIndex(desc, "pctim")][0] = c.R.Range(0, 0.05)
+		for t := 0; t < T; t++ {
+			in[0][t], in[1][t] = 0, c.R.Range(0, 5)
+			if c.R.Bool(0.4) {
+				in[0][t] = c.R.Range(5, 130)
+			}
+		}
+	}
 	// extreme storm now and then
-	if c.R.Bool(0.3) && !stress3 {
+	if c.R.Bool(0.3) && !stress3 && !tight {
 		in[0][c.R.Intn(T)] = c.R.Range(200, 500)
 	}
 	hot := c.R.Bool(0.4)
@@ -175,6 +192,9 @@ func c10Run(c *core.Ctx, long bool) {
 	c.Begin(map[string]interface{}{"model": model, "run": run, "warmup_for_hot_states": warm, "chained": chained})
 	if long {
 		c.Tag("long-single-call")
+	}
+	if tight {
+		c.Tag("Sacramento:long-without-unreported-losses")
 	}
 	if stress {
 		c.Tag("Sacramento:small-lztwm-stress")
